@@ -150,8 +150,8 @@ PROPS = {
         vfiles=["Props/C15"], tie_extra=["Generated/TieBroadcast"],
         technique="Coq proof: handle_packet characterised as a filter-map over the key-sorted registry (induction on the table), tick by case analysis on the link answer; correspondence on operation histories with logging handlers, the table being rebuilt from the ids the implementation returned",
         level_text="Theorems C15_tick (one get; packet delivered unmodified, once, in key order, to every handler if own/broadcast else to the capture-all handlers only; handlers' transmissions reach the link in order; "
-                   "'nothing received' = Ok without calls; any other link error returned without calls), C15_selection, C15_handler_sends; for every table, own address (incl. 0xffff) and link answer.",
-        level_note=NOTE_COMMON + " Handler closures are modelled as scripts (label, capture flag, packets they transmit to other addresses); re-entrant dispatch through the aliasing transmute is outside the model.",
+                   "'nothing received' = Ok without calls; any other link error returned without calls; a handler's own-addressed sends are delivered, nested, once to every handler), C15_quiet, C15_selection, C15_handler_sends; for every table, own address (incl. 0xffff) and link answer.",
+        level_note=NOTE_COMMON + " Handler closures are modelled as scripts (label, capture flag, packets they send when invoked by a top-level dispatch; a send to the own address re-enters the dispatcher, one level deep); handlers that mutate the registry while being dispatched are outside the model.",
         streams=[dict(PRO, view="view_C15", ok="ok_C15")],
         rule=RULE_PRO,
     ),
@@ -159,7 +159,7 @@ PROPS = {
         vfiles=["Props/C16"], tie_extra=["Generated/TieBroadcast"],
         technique="Coq proof by case analysis on destination vs own address vs broadcast over the model of send_packet, using the handle_packet characterisation; correspondence on operation histories",
         level_text="Theorems C16_send (own address: every local handler once, not on the link, Ok; own = broadcast address: also transmitted and the link answer returned; other destination: transmitted once, "
-                   "unmodified, no handler, link answer returned) and C16_transmit.",
+                   "unmodified, no handler, link answer returned), C16_every_handler_once, C16_nested (the same rule for sends made by a handler from inside a dispatch) and C16_transmit.",
         level_note=NOTE_COMMON,
         streams=[dict(PRO, view="view_C16", ok="ok_C16")],
         rule=RULE_PRO,
